@@ -289,6 +289,7 @@ class Node(object):
 
     def __init__(self, obj, ds, adder=None, kids=()):
         self.obj, self.ds, self.adder, self.kids = obj, ds, adder, list(kids)
+        self.det = []          # members detached from this composite (may be attached again)
 
 
 def _quiet(fn):
@@ -423,6 +424,20 @@ def run_c18(case, ctx):
         elif op == "add":
             if node.adder is not None:
                 node.adder(build(r["x"]))
+        elif op == "detach":
+            k = node.kids.pop(r["i"])
+            node.det.append(k)
+            if r.get("bulk"):
+                node.ds.remove_data_sources([k.ds.id])
+            else:
+                node.ds.remove_data_source(k.ds.id)
+        elif op == "reattach":
+            k = node.det.pop(r.get("j", -1))
+            node.kids.append(k)
+            if r.get("bulk"):
+                node.ds.add_data_sources([k.ds])
+            else:
+                node.ds.add_data_source(k.ds)
         elif op == "get":
             out.append(guarded(lambda: top.get(r["id"])))
         elif op == "all":
